@@ -97,7 +97,9 @@ CLAIMED = {
               "(induction over the shape list); the per-shape decision of clip_to_viewbox (drop iff disjoint interiors, clip "
               "rectangle = the intersection, untouched iff the box already equals it); this bounding-box shortcut is exact for any "
               "region lying inside the bounding box: dropped shapes have no point in the viewBox, untouched ones lie inside it, cut "
-              "ones keep exactly their points inside the viewBox (clip_decision_exact). Model tied exactly (Fraction vs Rat). The "
+              "ones keep exactly their points inside the viewBox (clip_decision_exact); relative to the engine specification (C13) "
+              "the path Skia returns for intersection((shape, rect(bbox ∩ viewBox))) covers, at generic points, exactly the shape's "
+              "points inside the viewBox (clip_region_exact). Model tied exactly (Fraction vs Rat). The "
               "cut geometry is Skia's (relative to EngineSpec, C13): the painted stack before/after clip_to_viewbox and the "
               "tightness of bounding boxes are judged on the implementation with the independent renderer / flattened extrema, on "
               "converted documents and on picosvgs written around the viewBox (shapes over each border and corner, bounding boxes "
@@ -174,7 +176,9 @@ CLAIMED = {
               "keeps them pairwise distinct wherever the sorted insert puts it (with newId_fresh: gradient copies never create a "
               "duplicate); the copy _resolve_use instances carries no id anywhere (use_copy_has_no_ids, mutual induction over the "
               "id-stripping rewrite and the renumbering of the copy), and of the pieces of a stroked shape at most one keeps an id "
-              "(stroke_split_ids). The document-level "
+              "(stroke_split_ids); after the loop of _remove_orphaned_gradients every gradient element left below the root has an id "
+              "that is in use, for trees of any shape (no_orphan_after_purge, mutual induction over Node.removeUid folded over "
+              "the unused gradients). The document-level "
               "invariant (unique ids, every url(#x) fill resolves to a gradient in defs, no unreferenced gradient, no href) is judged on "
               "every converted document from a generator that stresses shared references and colliding generated ids; the pipeline "
               "model is tied to the code on the same documents."),
